@@ -353,6 +353,65 @@ func scenario(name string, progs []string, bounds []int, w *recWriter) mc.Scenar
 	}
 }
 
+// sharedScenario: two id-carrying sources A and B exist before the goroutines start (B was aliased last, so anything the
+// library remembers about "the last source" is about B); the goroutines alias the SHARED sources - directly ('a', 'b'),
+// through a derived child context ('c' = child of A) - and log through the alias: every alias carries exactly its
+// source's id, whatever the other goroutines alias at the same time.
+func sharedScenario(name string, progs []string, bounds []int, w *recWriter) mc.Scenario {
+	type shared struct {
+		a, b, childA context.Context
+		idA, idB    string
+		res         []*tres
+	}
+	return mc.Scenario{
+		Name: name, Bounds: bounds, Horizon: 400,
+		Setup: func(x *vsched.Exec) {
+			bg := context.Background()
+			d := &shared{}
+			x.Data = d
+			d.a = logger.WithContext(bg)
+			d.b = logger.WithContext(bg)
+			d.childA = context.WithValue(d.a, struct{ k int }{1}, "v")
+			d.idA, _, _ = checkCall(w, fns[0], d.a, expect{kind: "lib"}, "probeA")
+			d.idB, _, _ = checkCall(w, fns[0], d.b, expect{kind: "lib"}, "probeB")
+			checkCall(w, fns[0], logger.AliasContext(bg, d.a), expect{kind: "lib", cid: d.idA}, "warmA")
+			checkCall(w, fns[0], logger.AliasContext(bg, d.b), expect{kind: "lib", cid: d.idB}, "warmB")
+			for i, p := range progs {
+				r := &tres{}
+				d.res = append(d.res, r)
+				i, p := i, p
+				x.Go(fmt.Sprintf("g%d", i), func() {
+					for j, op := range p {
+						src, want, what := d.a, d.idA, "A"
+						switch op {
+						case 'b':
+							src, want, what = d.b, d.idB, "B"
+						case 'c':
+							src, what = d.childA, "a child of A"
+						}
+						al := logger.AliasContext(bg, src)
+						id, k, wh := checkCall(w, fns[(i+j)%6], al, expect{kind: "lib", cid: want}, fmt.Sprintf("s%d.%d", i, j))
+						if k != "" && r.key == "" {
+							r.key, r.what = "alias-shared-source/"+k, fmt.Sprintf("goroutine g%d aliased %s (id %s) while other goroutines alias the shared sources A (id %s) and B (id %s): %s", i, what, want, d.idA, d.idB, wh)
+							return
+						}
+						_ = id
+					}
+				})
+			}
+		},
+		Check: func(x *vsched.Exec) (string, string, string) {
+			d := x.Data.(*shared)
+			for _, r := range d.res {
+				if r.key != "" {
+					return "bad-alias", r.key, r.what + "\nschedule: " + strings.Join(x.Trace, " ")
+				}
+			}
+			return "ok", "", ""
+		},
+	}
+}
+
 func scenarios(c *hl.Ctx, w *recWriter) []mc.Scenario {
 	unb := []int{0, 1, 2, -1}
 	b3 := []int{0, 1, 2, 3}
@@ -369,6 +428,10 @@ func scenarios(c *hl.Ctx, w *recWriter) []mc.Scenario {
 		scenario("3g-one-each", []string{"W", "A", "WO"}, []int{0, 1, 2, -1}, w),
 		scenario("3g-two-each", []string{"WW", "AL", "WNW"}, b3, w),
 		scenario("4g-one-each", []string{"W", "W", "A", "WL"}, b4, w),
+		sharedScenario("shared-sources: 2g alias A", []string{"a", "a"}, unb, w),
+		sharedScenario("shared-sources: 2g alias A and B both ways", []string{"ab", "ba"}, unb, w),
+		sharedScenario("shared-sources: 3g alias A, child of A, B", []string{"a", "c", "b"}, unb, w),
+		sharedScenario("shared-sources: 3g two aliases each", []string{"ab", "ca", "bc"}, b3, w),
 	}, histScenarios(w)...)
 }
 
@@ -377,7 +440,7 @@ func run(c *hl.Ctx) {
 	os.Stdout = devnull
 	w := &recWriter{}
 	logger.Switch(closerWriter{w})
-	c.Rule("E1: every interleaving (within the reported preemption bound; -1 = unbounded) of N goroutines calling WithContext/AliasContext and logging, scheduling points at the split read and write of the shared id counter (R4) and at any lock (R1); sequential sweep of 10 log functions x 10 context kinds (incl. aliases onto a parent carrying another id) x 7 messages; the 7 formatted variants x 3 context kinds x 13 (format, arguments) pairs, among them formats and arguments ending in a newline, %% and missing arguments (the message is what fmt.Sprintf makes of them; still exactly one line). A state = distinct observable outcome (relative ids per goroutine); transition = scheduling step or logging call." + historyRule)
+	c.Rule("E1: every interleaving (within the reported preemption bound; -1 = unbounded) of N goroutines calling WithContext/AliasContext and logging, scheduling points at the split read and write of the shared id counter (R4), at any lock (R1) and at any sync/atomic operation (R7); goroutines aliasing SHARED sources (two sources alive, aliased directly and through a child context by 2-3 goroutines at once); sequential sweep of 10 log functions x 10 context kinds (incl. aliases onto a parent carrying another id) x 7 messages; the 7 formatted variants x 3 context kinds x 13 (format, arguments) pairs, among them formats and arguments ending in a newline, %% and missing arguments (the message is what fmt.Sprintf makes of them; still exactly one line). A state = distinct observable outcome (relative ids per goroutine); transition = scheduling step or logging call." + historyRule)
 	c.Assume("accesses other than the instrumented counter/lock operations are judged by the separate free-running race-detector pass", "log lines are observed through a writer installed with logger.Switch", "the Info level is discarded by design: zero writes allowed for I/If", "messages that themselves contain a newline before their end span several lines by construction and are not judged; the plain variants with a message ending in a newline are not judged either (fmt.Sprintln semantics print an empty line after it)",
 		"history family: after logger.Close() and before the next Switch there is no current writer and lines are dropped (Close: 'discard any log util switch to fresh writer'); the value returned by Switch, which writer Close() closes, and the colour escapes sent to os.Stdout are not judged")
 	if c.Mode() == "race" {
